@@ -451,9 +451,15 @@ def build_node(spec, h, funcs=None):
             n = RouteNode(fn, tg, fallback=fb, multi_target=bool(spec.get("multi")), name=name, default_open=spec.get("default_open", True), **common)
         else:
             raise HarnessError(f"unknown node kind {kind}")
-    if spec.get("rename_in"):
+    if spec.get("rename_in_chain"):
+        for m in spec["rename_in_chain"]:
+            n = n.with_inputs(dict(m))
+    elif spec.get("rename_in"):
         n = n.with_inputs(dict(spec["rename_in"]))
-    if spec.get("rename_out"):
+    if spec.get("rename_out_chain"):
+        for m in spec["rename_out_chain"]:
+            n = n.with_outputs(dict(m))
+    elif spec.get("rename_out"):
         n = n.with_outputs(dict(spec["rename_out"]))
     return n
 
